@@ -1,5 +1,6 @@
 import Operon.Lemmas.C02
 import Operon.Lemmas.C02Logic
+import Operon.Lemmas.MitoBox
 import Operon.Gen.MitoFacts
 /-!
 # C02 — the safe evaluator computes the value Python computes on the allowed subset
@@ -215,6 +216,114 @@ theorem c02_entry_point_refines (T : Tables) (env : Env) (hT : TablesSound T) (h
       obtain ⟨w, t, g1, g2, g3, _⟩ := (c02_logic_pathway_refines T env hT hc e).1 v h2
       exact ⟨e, w, t, he, g1, g2, g3⟩
 
+/-! ### What the CALLER receives (`result.atp.value`, the text of `digest_glucose`): through the result containers
+
+`metabolizeD` / `digestGlucoseD` (`Model/MitoBox.lean`) put the containers `ATP` / `MetabolicResult` and the `str()` of the
+legacy entry point between the pathway's value and the caller, governed by the facts `Box` that E1 re-establishes on every
+run by driving the real entry points with sentinel values (long strings, long lists, huge ints, nan, …). -/
+
+/-- Whenever the model vouches for a value DELIVERED to the caller — for any behaviour of the containers — that value is
+    Python's: on the math pathway the value (and the interactions) of compile-then-evaluate with exactly the allow-listed
+    names, on the logic pathway `bool(w)` of Python's value `w`. -/
+theorem c02_delivered_value_is_pythons (T : Tables) (env : Env) (hT : TablesSound T) (hc : CmpReturnsBool env) (cfg : Cfg)
+    (box : Box) (latched : Bool) (d : Pathway) (inp : Inp) (forced : Option Pathway) (tr : List Act) (v : Val) (r : Bool)
+    (p : Pathway) (h : metabolizeD T env cfg box latched d inp forced = (tr, .result true (some v) r (some p))) :
+    (p = .glycolysis → ∃ e, inp.parsed = some e ∧ (pyRun T.names env e).2 = .ok v ∧ tr = (pyRun T.names env e).1) ∧
+    (p = .krebs → ∃ e w t, inp.parsed = some e ∧ (pyRun (namesB T.names) (envB env) e).2 = .ok w ∧
+        (truthyR env w).2 = .ok t ∧ v = .bool t) := by
+  unfold metabolizeD at h
+  obtain ⟨h1, h2⟩ := Prod.mk.inj h
+  obtain ⟨ho, _, _⟩ := deliver_success box _ v r (some p) h2
+  exact c02_entry_point_refines T env hT hc cfg latched d inp forced tr v r p (Prod.ext h1 ho)
+
+/-- Containers that keep the value and always build are invisible: every success of the engine reaches the caller as a
+    success with the SAME value, pathway and interactions (nothing cut, clamped or converted on the way). -/
+theorem c02_success_is_delivered_with_its_value (T : Tables) (env : Env) (cfg : Cfg) (box : Box)
+    (hv : box.valueKept = true) (hb : box.builds = true) (latched : Bool) (d : Pathway) (inp : Inp)
+    (forced : Option Pathway) :
+    metabolizeD T env cfg box latched d inp forced = metabolize T env cfg latched d inp forced := by
+  unfold metabolizeD
+  rw [deliver_kept box hv hb]
+
+/-- The containers of the CURRENT source keep the value, render the legacy text as `str(value)` and always build (E1:
+    the real `metabolize` / `digest_glucose` driven with sentinel values on every pathway; by `decide` over the fact). -/
+theorem c02_containers_keep_value_current_source :
+    Gen.box.valueKept = true ∧ Gen.box.textKept = true ∧ Gen.box.builds = true := by decide
+
+/-- … so on the engine as it stands every success result the caller receives carries Python's value (math) / `bool` of
+    Python's value (logic) — the statement of `c02_entry_point_refines` about `result.atp.value` itself. -/
+theorem c02_current_source_delivers_pythons_value (env : Env) (hc : CmpReturnsBool env) (cfg : Cfg) (latched : Bool)
+    (d : Pathway) (inp : Inp) (forced : Option Pathway) (tr : List Act) (v : Val) (r : Bool) (p : Pathway)
+    (h : metabolize Gen.tables env cfg latched d inp forced = (tr, .result true (some v) r (some p))) :
+    metabolizeD Gen.tables env cfg Gen.box latched d inp forced = (tr, .result true (some v) r (some p)) ∧
+    (p = .glycolysis → ∃ e, inp.parsed = some e ∧ (pyRun Gen.tables.names env e).2 = .ok v) ∧
+    (p = .krebs → ∃ e w t, inp.parsed = some e ∧ (pyRun (namesB Gen.tables.names) (envB env) e).2 = .ok w ∧
+        (truthyR env w).2 = .ok t ∧ v = .bool t) := by
+  obtain ⟨hv, _, hb⟩ := c02_containers_keep_value_current_source
+  have hD := c02_success_is_delivered_with_its_value Gen.tables env cfg Gen.box hv hb latched d inp forced
+  obtain ⟨g1, g2⟩ := c02_entry_point_refines Gen.tables env c02_tables_match_python hc cfg latched d inp forced tr v r p h
+  refine ⟨by rw [hD, h], fun hp => ?_, g2⟩
+  obtain ⟨e, he, hv', _⟩ := g1 hp
+  exact ⟨e, he, hv'⟩
+
+/-- A container that does NOT keep the value (a `__post_init__` that cuts a long text, clamps a number, …): the engine's
+    success is still reported as a success, but the model no longer vouches for the delivered value — the shape of the
+    seeded change "ATP cuts string results to 4096 characters" is expressible, and `Gen.box` is what rules it out. -/
+theorem c02_container_that_alters_delivers_unknown_witness :
+    ∃ (box : Box) (cfg : Cfg) (inp : Inp), box.builds = true ∧
+      (metabolize Gen.tables (⟨fun _ => .h 1, fun _ _ => .ok (.h 2), fun _ => .ok true, fun _ _ _ => .ok (.h 3),
+          fun _ _ _ => .ok (.h 4)⟩) cfg false .glycolysis inp none).2 = .result true (some (.h 1)) false (some .glycolysis) ∧
+      (metabolizeD Gen.tables (⟨fun _ => .h 1, fun _ _ => .ok (.h 2), fun _ => .ok true, fun _ _ _ => .ok (.h 3),
+          fun _ _ _ => .ok (.h 4)⟩) cfg box false .glycolysis inp none).2 = .result true none false (some .glycolysis) :=
+  ⟨⟨false, true, true⟩, ⟨10000, true, false, [], none, true, true, true⟩, ⟨2, some (.name "pi"), none, false⟩, rfl, rfl, rfl⟩
+
+/-- The legacy entry point (`digest_glucose`, also what `BioAgent` answers a "calculate …" prompt with): whenever the
+    model says the returned text is `str(v)`, `v` is Python's value of the text on the math pathway (compile, then
+    evaluate, with exactly the allow-listed names), with exactly Python's interactions. -/
+theorem c02_legacy_text_is_str_of_pythons_value (T : Tables) (env : Env) (hT : TablesSound T) (hc : CmpReturnsBool env)
+    (cfg : Cfg) (box : Box) (latched : Bool) (inp : Inp) (strRaises : Bool) (tr : List Act) (v : Val)
+    (h : digestGlucoseD T env cfg box latched inp strRaises = (tr, .rendered v)) :
+    ∃ e, inp.parsed = some e ∧ (pyRun T.names env e).2 = .ok v ∧ tr = (pyRun T.names env e).1 := by
+  unfold digestGlucoseD at h
+  rcases hm : metabolizeD T env cfg box latched .glycolysis inp (some .glycolysis) with ⟨t, o⟩
+  rw [hm] at h
+  cases o with
+  | raised => simp at h
+  | result s w r p =>
+    cases s with
+    | false => simp at h
+    | true =>
+      cases w with
+      | none => simp at h
+      | some w =>
+        simp only at h
+        split at h
+        · split at h <;> simp at h
+        · split at h
+          · simp only [Prod.mk.injEq, LegacyText.rendered.injEq] at h
+            obtain ⟨rfl, rfl⟩ := h
+            -- the pathway of a forced call is the forced one
+            have hp : p = some .glycolysis := by
+              have hm' := hm
+              unfold metabolizeD at hm'
+              obtain ⟨h1, h2⟩ := Prod.mk.inj hm'
+              obtain ⟨ho, _, _⟩ := deliver_success box _ w r p h2
+              exact metabolize_success_path T env cfg latched .glycolysis inp (some .glycolysis) t w r p (Prod.ext h1 ho)
+            subst hp
+            exact (c02_delivered_value_is_pythons T env hT hc cfg box latched .glycolysis inp (some .glycolysis) t w r
+              .glycolysis hm).1 rfl
+          · simp at h
+
+/-- … and on the engine as it stands a successful evaluation whose value renders is answered with `str(value)`. -/
+theorem c02_legacy_current_source_renders (env : Env) (cfg : Cfg) (latched : Bool) (inp : Inp) (tr : List Act) (v : Val)
+    (r : Bool) (p : Option Pathway)
+    (h : metabolize Gen.tables env cfg latched .glycolysis inp (some .glycolysis) = (tr, .result true (some v) r p)) :
+    digestGlucoseD Gen.tables env cfg Gen.box latched inp false = (tr, .rendered v) := by
+  obtain ⟨hv, ht, hb⟩ := c02_containers_keep_value_current_source
+  unfold digestGlucoseD
+  rw [c02_success_is_delivered_with_its_value Gen.tables env cfg Gen.box hv hb, h]
+  simp [ht]
+
 /-- The transform pathway (auto-detected for every text that starts with `[` or `{`), literal route: when the parsed
     text is a display of literals — constants, lists, tuples, nested — and the pathway returns what `ast.literal_eval`
     returns on such a tree (the structural value `litEval`; the driver computes exactly this, so the real pathway is
@@ -290,6 +399,20 @@ example : litEval (.list [.const (.h 7), .tuple [.const (.h 1), .const (.h 2)]])
       ⟨13, some (.list [.const (.h 7), .tuple [.const (.h 1), .const (.h 2)]]), some (.list [.h 7, .tuple [.h 1, .h 2]]), false⟩
       none = ([], .result true (some (.list [.h 7, .tuple [.h 1, .h 2]])) false (some .beta)) := by
   exact ⟨rfl, rfl⟩
+
+/-- `c02_delivered_value_is_pythons`: with the containers of the current source the caller of `metabolize("true")`
+    (auto-detected logic pathway) receives a success carrying `True` -/
+example : metabolizeD Gen.tables envInt ⟨10000, true, false, [], none, true, true, true⟩ Gen.box false .krebs
+    ⟨4, some (.name "true"), none, false⟩ none = ([], .result true (some (.bool true)) false (some .krebs)) := by rfl
+
+/-- `c02_legacy_text_is_str_of_pythons_value` / `c02_legacy_current_source_renders`: `digest_glucose("pi")` answers with
+    `str()` of the value bound to `pi`, after exactly one lookup -/
+example : digestGlucoseD Gen.tables envInt ⟨10000, true, false, [], none, true, true, true⟩ Gen.box false
+    ⟨2, some (.name "pi"), none, false⟩ false = ([.lookup "pi"], .rendered (.h 1)) := by rfl
+
+/-- … and a value that does not render (`10**5000`) is answered with the failure text, not with a raise -/
+example : (digestGlucoseD Gen.tables envInt ⟨10000, true, false, [], none, true, true, true⟩ Gen.box false
+    ⟨2, some (.name "pi"), none, false⟩ true).2 matches .failure := by rfl
 
 /-- `c02_literals_untouched_at_any_depth`: `'true' == '1'` (two string constants, no name) -/
 example : "true" ∉ namesOf (.compare (.const (.h 1)) [.eq] [.const (.h 2)]) ∧
